@@ -84,6 +84,19 @@ fn keys_list(rng: &mut Rng, cfg: &Cfg, max: usize) -> Vec<u64> {
 }
 
 fn gen_wantlist(rng: &mut Rng, cfg: &Cfg, sink: &mut Sink) -> String {
+    if cfg.big_wantlists && rng.chance(1, 5) {
+        // cap probe: an update mixing cancels that remove nothing (never-wanted CIDs, or one CID
+        // cancelled many times) with wants for CIDs that are new to the record
+        let m = *rng.pick(&[10u64, 300, 1024]);
+        let base = 1030 + rng.below(900) as u64;
+        let mut es: Vec<String> = (0..m).map(|i| if rng.chance(1, 2) { format!("{}!", 2500 + (i % 500)) } else { "2999!".to_string() }).collect();
+        es.extend((0..m).map(|i| (base + i).min(cfg.keys - 1).to_string()));
+        if rng.chance(1, 2) {
+            rng.shuffle(&mut es);
+        }
+        sink.count("node.msg.cap-probe");
+        return format!("0/{}", es.join(","));
+    }
     let full = rng.chance(1, 3);
     let n = if cfg.big_wantlists && rng.chance(1, 3) {
         *rng.pick(&[1020usize, 1023, 1024, 1025, 1026, 1500, 3000])
@@ -124,6 +137,23 @@ pub fn node_stream(seed: u64, histories: usize, cfg: Cfg) -> Sink {
         let nops = cfg.ops / 2 + rng.below(cfg.ops);
         let mut i = 0;
         let mut want_drain = false;
+        if cfg.big_wantlists {
+            // start at the cap: peer 0 connects and sends a wantlist that fills (or overfills) its record
+            let n = *rng.pick(&[1023u64, 1024, 1025, 1500]);
+            let full = rng.chance(1, 2);
+            view.conns.entry(0).or_default().insert(view.next_conn);
+            let pre = vec![
+                format!("connect 0 {}", view.next_conn),
+                format!("msg 0 h= d= b= w={}/{}", full as u8, (0..n).map(|k| k.to_string()).collect::<Vec<_>>().join(",")),
+            ];
+            view.next_conn += 1;
+            for op in pre {
+                let out = ex.exec(&op);
+                absorb(&mut view, &out);
+                sink.push(format!("n {op}"), out, "-".into());
+            }
+            sink.count("node.msg.fill-to-cap");
+        }
         while i < nops {
             i += 1;
             let r = if want_drain { 0 } else { rng.below(100) };
